@@ -953,6 +953,7 @@ def make_units(ctx: Ctx) -> List[dict]:
 def run_bounded(ctx: Ctx) -> Report:
     import multiprocessing as mp
     t0 = time.time()
+    torch.set_num_threads(1)
     rep = Report(property_id="C06", level="exploration")
     units = make_units(ctx)
     # heavy units first
@@ -1007,6 +1008,8 @@ def run_bounded(ctx: Ctx) -> Report:
     rep.extra["rep_invariant_checks"] = {"checked": checked, "skipped": skipped}
     rep.extra["c06_failure_counts_by_key"] = dict(sorted(per_key_total.items()))
     rep.extra["c06_bounded_wall_s"] = round(time.time() - t0, 1)
+    rep.extra["c06_units"] = {"n": len(units), "cpu_s_total": round(sum(r["wall"] for r in results), 1),
+                              "cpu_s_max_unit": round(max(r["wall"] for r in results), 1)}
     rep.functions_under_contract += ["fggs.indices.PatternedTensor.*", "fggs.indices.stack", "fggs.indices.project",
                                      "fggs.indices.reshape_or_view", "fggs.indices.broadcast"]
     return rep
@@ -1017,7 +1020,7 @@ if __name__ == "__main__":
     tier = sys.argv[1] if len(sys.argv) > 1 else "quick"
     t0 = time.time()
     r = run_bounded(Ctx("C06", tier, 0))
-    print("wall", round(time.time() - t0, 1), "failures", len(r.failures))
+    print("wall", round(time.time() - t0, 1), "failures", len(r.failures), r.extra["c06_units"], r.extra["rep_invariant_checks"])
     for b in r.bounded: print(b.function[:60], b.cases, b.distinct_nontrivial, b.extra.get("wall_cpu_s"))
     for k, v in r.extra["c06_failure_counts_by_key"].items(): print(v, k)
     if len(sys.argv) > 2:
